@@ -21,7 +21,13 @@ MANIFEST = {
             "correspondence of every single trip (model started from the previously observed live object graph, code configuration "
             "probed) on generated composition programs x mixed sequences of 1-3 trips, two-sided abstraction, plus a direct oracle "
             "of the property text and a position-based variant.",
-    "note": "Trusted: Coq kernel + vm_compute; the harness's raw __dict__ abstraction of live models (ids compared up to a strictly "
+    "note": "The pickle theorem is definitional (the model of pickle is the identity up to the message id of Gaussian priors): all "
+            "assurance about pickle/dill, about the JSON text layer and about SQLite comes from correspondence and oracle; the order in "
+            "which the database returns child rows (no order_by on Object.children; Compound.left = children[0]) is observed on every "
+            "database trip and a deviation from write order is reported. Excluded from the abstraction (stated, not checked): the "
+            "_is_frozen flag / caches, Model ids, and the `label` string Model.__setattr__ stamps on objects; observed by the oracle "
+            "but not modelled in Coq: int-versus-float type of fixed values, Collection.item_number, None / str / tuple / list / plain "
+            "instance constants, af.Array, unary ModifiedPrior. Trusted: Coq kernel + vm_compute; the harness's raw __dict__ abstraction of live models (ids compared up to a strictly "
             "monotone renumbering, for dict up to any injective one); SQLite/SQLAlchemy/json/pickle themselves (covered by "
             "correspondence only). Partial: the equivalence theorems for the dict form exclude components without free parameters "
             "(written as 'instance': finding) and, for path-keyed statements, arithmetic priors (names not stored: finding). Not "
@@ -1034,8 +1040,11 @@ def run(ctx):
     ctx.rule = ("C01 composition programs (uniform / gaussian with finite and infinite limits / log-uniform / log-gaussian priors, "
                 "dyadic and non-dyadic limits) extended with Prior.new() and with_limits() copies, prior-passed top-level components "
                 "(reassigned ids), components without free parameters (with tuples / extra attributes), dict-valued constants incl. "
-                "falsy values, 0-2 assertions (simple, chained, on arithmetic expressions) x a sequence of 1-3 round trips mixed from "
-                "dict (model.dict / autoconf to_dict / JSON file), pickle (pickle / dill) and database (Fit(model=) commit + fresh session). "
+                "falsy values, constants that are not floats (None, str, tuple, list, int, plain instance), 0-2 (rarely 11-12) assertions (simple, "
+                "chained, on arithmetic expressions) x a sequence of 1-3 round trips mixed from dict (model.dict / autoconf to_dict / JSON "
+                "file / from_dict with a reference dict of class paths), pickle (pickle / dill) and database (Fit(model=) commit + fresh "
+                "session); plus af.Array models (heterogeneous entries, shared entries, bare or inside a Collection, 1-2 trips) and unary "
+                "derived parameters; fixed corpus cases first. "
                 "Non-trivial: >= 2 priors and one of {shared prior, nesting, tuple, arithmetic, constant, copy, passing, assertion, "
                 "zero-prior component}. Distinct = distinct (program, decorations, trip sequence). Every trip is one evaluation.")
     ctx.trusted = [
